@@ -183,7 +183,7 @@ func checkC12(h *harness.H, ci interface{}) *harness.Failure {
 		// parentheses come in optional pairs, and one of a pair is unbalanced): without it, or with
 		// it twice, the text is no sentence of the grammar
 		if v.ParseOK {
-			return harness.Failf("a text with one punctuation token %s was accepted\nbase:\n%s\nvariant:\n%s", c.Inserted, c.Base, c.Variant)
+			return harness.Failf("a text with %s was accepted\nbase:\n%s\nvariant:\n%s", c.Inserted, c.Base, c.Variant)
 		}
 	case "illegal":
 		if v.ParseOK {
@@ -276,6 +276,20 @@ func TestC12(t *testing.T) {
 				if len(at) == 0 {
 					return nil
 				}
+				// `exec f ( )` takes no arguments: names written between its parentheses are no sentence
+				var execAt []int
+				for i := 0; i+3 < len(toks); i++ {
+					if toks[i] == "exec" && isPlainIdent(toks[i+1]) && toks[i+2] == "(" && toks[i+3] == ")" {
+						execAt = append(execAt, i+3)
+					}
+				}
+				if len(execAt) > 0 && d.Chance(70, "execargs") {
+					i := execAt[d.Pick(len(execAt), "whichexec")]
+					ins := d.Of([]string{"x", "x , y", "self", "self , x"}, "execarg")
+					c.Kind, c.Inserted = "punct", fmt.Sprintf("%q written between the parentheses of an exec", ins)
+					c.Variant = strings.Join(toks[:i], " ") + " " + ins + " " + strings.Join(toks[i:], " ")
+					break
+				}
 				i := at[d.Pick(len(at), "which")]
 				c.Kind = "punct"
 				var out []string
@@ -288,10 +302,10 @@ func TestC12(t *testing.T) {
 				juxtaposes := i > 0 && i+1 < len(toks) && isPlainIdent(toks[i-1]) && startsType(toks[i+1])
 				if isOp || juxtaposes || d.Bool("double") {
 					out = append(append(append(out, toks[:i+1]...), toks[i]), toks[i+1:]...)
-					c.Inserted = fmt.Sprintf("%q doubled (token %d)", toks[i], i)
+					c.Inserted = fmt.Sprintf("one punctuation token %q doubled (token %d)", toks[i], i)
 				} else {
 					out = append(append(out, toks[:i]...), toks[i+1:]...)
-					c.Inserted = fmt.Sprintf("%q removed (token %d)", toks[i], i)
+					c.Inserted = fmt.Sprintf("one punctuation token %q removed (token %d)", toks[i], i)
 				}
 				c.Variant = strings.Join(out, " ")
 			case 5: // one identifier respelled everywhere
